@@ -19,13 +19,17 @@ THEOREMS = [
     'Pfst.C10.raw_eq_full_partial', 'Pfst.C10.raw_ok_iff_valid_partial', 'Pfst.C10.movePos_eq_offsetPos',
     'Pfst.C10.reparse_eq_full_partial', 'Pfst.C10.reparse_eq_full_f6', 'Pfst.C10.tail_not_past_semicolon',
     'Pfst.C10.guard_rejects_known_witnesses', 'Pfst.C10.f8_invalid_edit_refused', 'Pfst.C10.f9_valid_edit_accepted',
+    'Pfst.C10.header_graft_keeps_old_blocks', 'Pfst.C10.header_graft_same_class', 'Pfst.C10.try_finally_no_phantom_handler',
     'Pfst.C10.clip_in_range', 'Pfst.C10.ret_end_is_end_of_new_text',
     'Pfst.C10.raw_put_registry_restored', 'Pfst.C10.raw_put_outcome', 'Pfst.C10.raw_seq_registry_empty',
     'Pfst.C10.raw_seq_no_registry_error', 'Pfst.C10.leaky_seq_false',
 ]
 RULE = ('histories of k<=6 raw edits on one live tree per corpus program, refused and accepted edits mixed, later edits placed '
         'relative to the previous one (same statement, sibling statement, parent block header, other top-level statement), '
-        'continuing on the same tree after every refusal; after EVERY step the full oracle and emptiness of '
+        'continuing on the same tree after every refusal; a deterministic family of edits wholly inside the header of every '
+        'block statement kind x every combination of optional blocks x nesting (identity re-put of each header token and of '
+        'the first two letters, every gap collapsed / widened / turned into a continuation, names renamed or parenthesised); '
+        'expression roots judged by ast.parse(mode="eval"); after EVERY step the full oracle and emptiness of '
         'fst_core._MODIFYING are checked; plus scripted histories and directed single edits on every run. Edits: '
         'per corpus program (snippets, generated programs with layout '
         'mutations, stdlib chunks): put_src(action="reparse") on rectangles at node spans, node-to-node spans, token '
@@ -49,8 +53,10 @@ TRUSTED = [
     'formula); _offset is modelled in Pfst/Offset.lean (C11) and linked by movePos_eq_offsetPos',
     'not modelled: the mode="all" retry for non-module roots, parse_match_case / parse_ExceptHandler (special path: text compared, result judged only by the full '
     'parse), _set_ast / cache maintenance, the f/t-string parent rule of _reparse_raw, argument validation of raw puts',
+    'the header-only graft keeps "field absent" and "empty list" apart (Pfst.Raw.Blocks); the header-end guard of fix C10-F9 is '
+    'an input of the model that is fed only when the code under test has the parameter blkhead_end',
     'excluded inputs: new sources ending in a backslash-newline (pfst parses these with an extra newline by documented '
-    'convention; CPython rejects them); raw puts whose rectangle is not the CPython span of the node (location functions '
+    'convention in parsex._ast_parse; CPython rejects them; triaged as by design, not a finding); raw puts whose rectangle is not the CPython span of the node (location functions '
     'belong to other properties); raw puts that are refused before reaching _reparse_raw (delete/insert contract)',
 ]
 ASSUMPTIONS = [
@@ -309,6 +315,9 @@ def _replay_findings(ctx):
 
 def _run_witness(ctx, w):
     """replay one witness through the same pipeline; returns [(sig, what)]"""
+    if w.get('root') == 'expression':
+        got, _ = _expr_case(w['src'], tuple(w['rect']), w['new'])
+        return [(sig, f'expression root {w["src"]!r} put_src {w["rect"]} <- {w["new"]!r}: {what}') for sig, what in (got or [])]
     if w.get('history') and w['op'] == 'put_src':
         # the failing step with the earlier steps of its history, on one tree
         recs = ops.run_sequence((w['history']['src'], 0, 0, ['put_src'], [tuple(e) for e in w['history']['edits']] + [(w['new'], *w['rect'])]))
@@ -395,6 +404,10 @@ DIRECTED = [
     # header-only reparse where the new header is another kind of statement (block fields of the old node re-attached)
     ('x\nmatch abc:\n    case 1:\n        pass\n', [1, 0, 1, 0], 'for i in j:\n    pass\n'),
     ('if abc:\n    b\nelse:\n    c\n', [0, 0, 0, 2], 'while'),
+    # header-only edit that closes the header early and brings its own body / else
+    ('if a :\n    old', [0, 3, 0, 4], 'a: b\nelse'),
+    ('def f():\n    while a  :\n        old\n', [1, 10, 1, 11], 'a: b\n    else'),
+    ('for i in xs  :\n    y\n', [0, 9, 0, 11], 'xs: pass #'),
     # whole statement in each wrapper family
     ('def f():\n    try:\n        a\n    except E as e:\n        b\n    except F:\n        c\n', [4, 8, 4, 9], 'bb = 1'),
     ('def f():\n    match x:\n        case 1:\n            pass\n        case [a, b] if a:\n            y = 2\n', [5, 16, 5, 17], '33'),
@@ -425,6 +438,93 @@ def _histories(ctx):
     return recs
 
 
+def _header_family(ctx):
+    """every block statement kind x optional blocks x nesting: edits wholly inside the header, one per fresh tree"""
+    edits = ops.header_edits()
+    res = pmap(ops.run_sequence, [(src, 0, 0, ['put_src'], [e]) for src, e, _ in edits])
+    recs = []
+    for (src, e, label), lst in zip(edits, res):
+        for r in lst:
+            r['rk'], r['nk'] = 'header:' + label.split(':')[0], 'header:' + label.split(':')[1]
+            recs.append(r)
+    return recs
+
+
+# expression roots (the whole-source path with a non-module root): judged by ast.parse(mode='eval')
+EXPR_ROOTS = ['a + b * c', 'f"{ab}"', 'x if y else z', '[a, b, c]', 'f(a, b=c)', 'a.b[c]', 'lambda x: x + 1', '{a: b, c: d}',
+              'not a and b', 'f"{x!r:>{w}} t"', '(a, b)', 'a < b < c', '-a ** b', '[i for i in x if i]', 'a or b or c']
+EXPR_TEXTS = ['+ c', 'b=', 'zz', '(q)', '', '* 2', ')', 'q,', ' and r', '.m', '[0]', 'a + b']
+
+
+def _expr_case(src, rect, new):
+    """one raw edit on an expression root; returns None (not applicable) or [(sig, what)] (empty = fine) and a note"""
+    from fst import FST
+    import fst.fst_core as fc
+    fc._MODIFYING.clear()
+    try:
+        root = FST(src)
+    except Exception:
+        return None, None
+    if not isinstance(root.a, ast.expr):
+        return None, None
+    d0 = util.dump_pos(root.a)
+    new_src = ops.splice(src, new, *rect)
+    try:
+        ref = ast.parse(new_src, mode='eval').body
+    except SyntaxError:
+        ref = None
+    except Exception:
+        return None, None
+    out = []
+    note = None
+    pre = 'C10|put_src-reparse|expr-root|'
+    try:
+        root.put_src(new, *rect, 'reparse')
+    except Exception as e:
+        if root.src != src or util.dump_pos(root.a) != d0:
+            out.append((pre + 'not-atomic', f'raised {type(e).__name__} but source or tree changed'))
+        elif ref is not None:
+            out.append((pre + f'refuses-valid-source|{type(e).__name__}',
+                        f'raised {type(e).__name__}: {e} although the new source is a valid expression'))
+    else:
+        if root.src != new_src:
+            out.append((pre + 'src-not-splice', 'source is not the requested splice'))
+        elif ref is not None and util.dump_pos(root.a) != util.dump_pos(ref):
+            out.append((pre + 'tree-differs', 'tree differs from ast.parse(new source, mode="eval"): '
+                        + util.first_diff(util.dump_pos(root.a), util.dump_pos(ref))))
+        elif ref is None:
+            note = 'accepted-as-another-kind (mode "all" retry of non-module roots, by design)'
+    if root in fc._MODIFYING:
+        out.append((pre + 'registry-not-empty', 'registry entry left behind'))
+    return out, note
+
+
+def _expr_roots(ctx):
+    import io
+    import tokenize
+    n = 0
+    for src in EXPR_ROOTS:
+        toks = [t for t in tokenize.generate_tokens(io.StringIO(src).readline)
+                if t.type not in (tokenize.NEWLINE, tokenize.NL, tokenize.ENDMARKER) and t.start[0] == 1]
+        rects = [(0, t.start[1], 0, t.end[1]) for t in toks]
+        rects += [(0, a.start[1], 0, b.end[1]) for a, b in zip(toks, toks[1:])] + [(0, t.end[1], 0, t.end[1]) for t in toks]
+        for rect in rects:
+            for new in EXPR_TEXTS + [src[rect[1]:rect[3]]]:
+                got, note = _expr_case(src, rect, new)
+                if got is None:
+                    continue
+                n += 1
+                w = {'src': src, 'op': 'put_src', 'rect': list(rect), 'new': new, 'root': 'expression'}
+                ctx.count([src, rect, new, 'expr-root'])
+                if note:
+                    ctx.tally('expr_root', note)
+                for sig, what in got:
+                    ctx.fail(sig, f'expression root {src!r} put_src {list(rect)} <- {new!r}: {what}', w)
+                    ctx.tally('failure_signature', sig)
+                    ctx.notes.setdefault('first_witness_per_signature', {}).setdefault(sig, {'what': what[:300], 'witness': w})
+    ctx.notes['expr_root_edits'] = n
+
+
 def _directed(ctx):
     rec = ops.recorder()
     recs = []
@@ -440,6 +540,8 @@ def sweep(ctx):
     _replay_findings(ctx)
     _account(ctx, _pipeline(ctx, _directed(ctx)), 'directed edits (every wrapper family / graft variant) vs Pfst.Raw')
     _account(ctx, _pipeline(ctx, _histories(ctx)), 'scripted histories (refused and accepted edits at different places) vs Pfst.Raw')
+    _account(ctx, _pipeline(ctx, _header_family(ctx)), 'header edits (every block kind x optional blocks x nesting) vs Pfst.Raw')
+    _expr_roots(ctx)
     progs = _programs(ctx, 160 if q else 1200, 12 if q else 150)
     mix = ['put_src'] * 7 + ['raw-put'] * 2 + ['reparse']
     recs = _gather(ctx, progs, 6, 6 if q else 9, mix)
